@@ -74,6 +74,14 @@ func placeholderFinding(r rtResult) string {
 		if r.Stage == "reparse" && (r.S2 == "otherread" || r.S2 == "otheradmin") {
 			return "other-statement-placeholder"
 		}
+	case *sqlparser.Set:
+		if r.Stage == "print-panic" {
+			for _, e := range t.Exprs {
+				if _, isVal := e.Expr.(*sqlparser.SQLVal); e.Name.EqualString(sqlparser.TransactionStr) && !isVal {
+					return "set-transaction-variable-print-panics"
+				}
+			}
+		}
 	case *sqlparser.Show:
 		if r.Stage == "print-panic" && t.ShowTablesOpt != nil && t.ShowTablesOpt.Filter != nil && t.ShowTablesOpt.Filter.Like == "" && t.ShowTablesOpt.Filter.Filter == nil {
 			return "show-like-empty-panics"
@@ -129,6 +137,11 @@ func c30Prop(c c30Case) ev.Outcome {
 		o.Classes = append(o.Classes, "finding_"+emptyNameAfterDot)
 		return o
 	}
+	if _, isDDL := r.T1.(*sqlparser.DDL); isDDL && rec.Known("positional-arg-printed-as-named") && positionalArgInDDLExplains(c.SQL, r, rec.Known) {
+		o.Excluded = "positional-arg-printed-as-named"
+		o.Classes = append(o.Classes, "finding_positional-arg-printed-as-named")
+		return o
+	}
 	if rec.Known(mysqlRawNames) && mysqlRawNamesExplains(c.SQL, r, rec.Known) {
 		o.Excluded = mysqlRawNames
 		o.Classes = append(o.Classes, "finding_"+mysqlRawNames)
@@ -160,6 +173,28 @@ func emptyNameAfterDotExplains(sql string, r rtResult, known func(string) bool) 
 		return false
 	}
 	return r2.Stage == "" || placeholderFinding(r2) != "" && known(placeholderFinding(r2)) || len(attribute(r2.T1, known)) > 0
+}
+
+// positionalArgInDDLExplains: column options of CREATE TABLE are printed through String(), out of reach of the
+// repaired printer, so for DDL the positional-argument finding is recognised on the text: it has a ? lexeme, and with
+// every ? replaced by 1 the statement passes the oracle (directly or through other known findings).
+func positionalArgInDDLExplains(sql string, r rtResult, known func(string) bool) bool {
+	toks := lexemes(sql)
+	changed := 0
+	for i := range toks {
+		if toks[i] == "?" {
+			toks[i] = "1"
+			changed++
+		}
+	}
+	if changed == 0 {
+		return false
+	}
+	r2 := roundTrip(strings.Join(toks, " "))
+	if r2.Stage == "reject" || reflect.TypeOf(r2.T1) != reflect.TypeOf(r.T1) {
+		return false
+	}
+	return r2.Stage == "" || placeholderFinding(r2) != "" && known(placeholderFinding(r2)) || len(attribute(r2.T1, known)) > 0 || known(mysqlRawNames) && mysqlRawNamesExplains(strings.Join(toks, " "), r2, known)
 }
 
 const mysqlRawNames = "mysql-ddl-set-show-names-printed-raw"
